@@ -33,6 +33,7 @@ class Variant:
     kind: str = "broken"           # 'broken' | 'twin'
     rule: Optional[str] = None     # rule expected to report it
     note: str = ""
+    also: Optional[list] = None    # further (old, new) edits in the same function, applied with the first
 
 
 def function_span(src: str, qual: str) -> Optional[Tuple[int, int]]:
@@ -78,7 +79,12 @@ def apply_variant(db: ProgramDB, v: Variant) -> Optional[str]:
         seg = src[s:e]
         if seg.count(v.old) != 1:
             return None
-        return src[:s] + seg.replace(v.old, v.new, 1) + src[e:]
+        seg = seg.replace(v.old, v.new, 1)
+        for o2, n2 in (v.also or []):
+            if seg.count(o2) != 1:
+                return None
+            seg = seg.replace(o2, n2, 1)
+        return src[:s] + seg + src[e:]
     if src.count(v.old) != 1:
         return None
     return src.replace(v.old, v.new, 1)
